@@ -8,7 +8,7 @@ import ho
 import runner
 from framework import Outcome
 
-FUNCS = ("AddOne", "Accum", "AddKey", "TickAfter", "FailOn", "Add2", "Chain", "PulseFail")
+FUNCS = ("AddOne", "Accum", "AddKey", "TickAfter", "FailOn", "Add2", "Chain", "PulseFail", "TickAdd2")
 FAILING = ("FailOn", "PulseFail")
 
 
@@ -120,6 +120,10 @@ class C10:
                 writers.append(ho.gen_ts_writer(rng, 3, end))
                 spec["b"] = 3
                 stmt += " b=3"
+        if f == "TickAdd2":
+            writers.append(ho.gen_tsd_subset_writer(rng, 2, end, writers[0]))
+            spec["d2"] = 2
+            stmt += " d2=2"
         stmts = [stmt, "cons 11 10"]
         if f in FAILING:
             stmts.append("maperr 12 10")
